@@ -8,6 +8,7 @@ package tree
 import (
 	"fmt"
 	"net/http"
+	"slices"
 	"sync"
 
 	"github.com/issue9/errwrap"
@@ -117,6 +118,18 @@ func (tree *Tree[T]) Add(pattern string, h T, ms []types.Middleware[T], methods 
 		return err
 	}
 
+	if len(methods) == 0 {
+		methods = AnyMethods
+	}
+
+	// 先验证语法和请求方法：getNode 可能拆分现有的节点，从而改变其它路由项的匹配结果，被拒绝的注册不应该留下这种痕迹。
+	if _, err := tree.interceptors.Split(pattern); err != nil {
+		return err
+	}
+	if err := tree.checkMethods(pattern, methods...); err != nil {
+		return err
+	}
+
 	n, err := tree.getNode(pattern)
 	if err != nil {
 		return err
@@ -126,10 +139,28 @@ func (tree *Tree[T]) Add(pattern string, h T, ms []types.Middleware[T], methods 
 		n.handlers = make(map[string]T, handlersSize)
 	}
 
-	if len(methods) == 0 {
-		methods = AnyMethods
-	}
 	return n.addMethods(h, pattern, ms, methods...)
+}
+
+// 在不改变路由树的前提下，验证 methods 是否都能添加到 pattern 上。
+func (tree *Tree[T]) checkMethods(pattern string, methods ...string) error {
+	var handlers map[string]T
+	if n := tree.Find(pattern); n != nil {
+		handlers = n.handlers
+	}
+
+	for i, m := range methods {
+		if m == http.MethodOptions || m == http.MethodHead || (tree.hasTrace && m == http.MethodTrace) {
+			return fmt.Errorf("无法手动添加 OPTIONS/HEAD/TRACE 请求方法")
+		}
+		if _, found := methodIndexMap[m]; !found {
+			return fmt.Errorf("该请求方法 %s 不被支持", m)
+		}
+		if _, found := handlers[m]; found || slices.Contains(methods[:i], m) {
+			return fmt.Errorf("该请求方法 %s 已经存在", m)
+		}
+	}
+	return nil
 }
 
 func (tree *Tree[T]) checkAmbiguous(pattern string) error {
